@@ -381,7 +381,8 @@ SEQ_DEFAULT = [("mix", 1024, None, 40, 40), ("cas", 1024, None, 30, 40), ("cuts"
 PROPS = {
     "C01": {"seq": [("mix", 1024, None, 60, 40), ("wide", 1024, None, 40, 50), ("ttl", 1024, None, 30, 40),
                     ("mix", 1024, 1000000, 30, 40), ("cuts", 256, None, 20, 30), ("big", 1048576, None, 5, 16)],
-            "conn": [("big", 1048576, None, 4, 14)], "conc": [("base", 200)], "monitor_kinds": ["STUCK"], "relevant": "RMWT"},
+            "conn": [("big", 1048576, None, 4, 14)], "conc": [("base", 200)], "slow": True,
+            "monitor_kinds": ["STUCK", "SLOW"], "relevant": "RMWT"},
     "C02": {"seq": [("cas", 1024, None, 80, 50), ("mix", 1024, None, 30, 40), ("ttl", 1024, None, 30, 40),
                     ("counter", 1024, None, 30, 40)], "conc": [("base", 200)], "monitor_kinds": ["STUCK"], "relevant": "RMWT"},
     "C03": {"seq": [("cas", 1024, None, 20, 30)], "conc": [("base", 500)], "relevant": "RMT"},
@@ -396,20 +397,22 @@ PROPS = {
     "C07": {"seq": [("counter", 1024, None, 100, 50), ("cas", 1024, None, 20, 40), ("ttl", 1024, None, 20, 40)],
             "relevant": "RMW"},
     "C08": {"seq": [("flush", 1024, None, 80, 50), ("ttl", 1024, None, 40, 50), ("cas", 1024, None, 30, 40),
-                    ("wide", 1024, None, 30, 40)], "relevant": "RMW"},
+                    ("wide", 1024, None, 30, 40)],
+            "conn": [("flush", 1024, None, 30, 30), ("quiet", 1024, None, 15, 25)], "relevant": "RMW"},
     "C09": {"seq": [("cuts", 1024, None, 60, 30), ("malformed", 1024, None, 60, 30), ("malformed", 100, None, 40, 30),
                     ("cuts", 64, None, 30, 30)],
             "conn": [("cuts", 1024, None, 30, 25), ("malformed", 100, None, 30, 25), ("malformed", 1024, None, 20, 25),
                      ("big", 1048576, None, 4, 14)],
-            "relevant": "RSM"},
+            "slow": True, "monitor_kinds": ["SLOW"], "relevant": "RSM"},
     "C10": {"seq": [("malformed", 1024, None, 80, 30), ("malformed", 64, None, 40, 30), ("counter", 1024, None, 30, 40),
                     ("cas", 1024, None, 30, 40)],
             "conn": [("malformed", 100, None, 30, 25)], "relevant": "RSM"},
     "C11": {"seq": [("mix", 1024, None, 80, 40), ("quiet", 1024, None, 40, 40), ("counter", 1024, None, 40, 40),
                     ("malformed", 100, None, 40, 30), ("wide", 1024, None, 30, 40)],
-            "conn": [("mix", 1024, None, 20, 25), ("big", 1048576, None, 6, 16)], "relevant": "RW", "monitor_prefix": "c11_"},
+            "conn": [("mix", 1024, None, 20, 25), ("big", 1048576, None, 6, 16)], "slow": True, "monitor_kinds": ["SLOW"],
+            "relevant": "RW", "monitor_prefix": "c11_"},
     "C12": {"seq": [("quiet", 1024, None, 60, 40), ("mix", 1024, None, 40, 40), ("malformed", 1024, None, 30, 30)],
-            "conn": [("quiet", 1024, None, 30, 25), ("mix", 1024, None, 30, 25)], "relevant": "RSW"},
+            "conn": [("quiet", 1024, None, 30, 25), ("mix", 1024, None, 30, 25), ("flush", 1024, None, 20, 25)], "relevant": "RSWM"},
     "C13": {"seq": [("malformed", 100, None, 60, 30), ("malformed", 64, None, 40, 30), ("cuts", 100, None, 30, 30)],
             "conn": [("malformed", 100, None, 40, 25), ("malformed", 1024, None, 20, 25), ("cuts", 64, None, 20, 25)],
             "relevant": "RSMW"},
@@ -425,8 +428,9 @@ PROPS = {
     "C18": {"seq": [("cuts", 1024, None, 60, 30), ("malformed", 1024, None, 40, 30)],
             "conn": [("cuts", 1024, None, 30, 25), ("malformed", 1024, None, 30, 25), ("mix", 1024, None, 20, 25)],
             "limit": 4, "relevant": "RSMV"},
-    "C19": {"seq": [("quiet", 1024, None, 80, 50), ("mix", 1024, None, 30, 40), ("counter", 1024, None, 30, 40)],
-            "relevant": "RMW"},
+    "C19": {"seq": [("quiet", 1024, None, 80, 50), ("mix", 1024, None, 30, 40), ("counter", 1024, None, 30, 40),
+                    ("malformed", 100, None, 30, 30)],
+            "conn": [("quiet", 100, None, 20, 25), ("malformed", 100, None, 20, 25)], "relevant": "RMWS"},
 }
 
 KINDS = {"R": "responses", "S": "connection status", "M": "store content", "U": "accounting", "T": "operation results under a schedule", "P": "operation results under a schedule (policy store)", "W": "frame monitor", "V": "which connections are served", "N": "connection not served"}
@@ -551,6 +555,24 @@ def run_conc_suites(prop, cfg, tier, seed, work, report):
                     if cs:
                         report["samples"].append({"suite": tag, "trace": cs[0][1][:14]})
                 report["suites"].append(tag)
+    if cfg.get("slow"):
+        # a client that does not read while the server answers megabytes: every response must
+        # still arrive complete, in order, byte for byte (expected bytes computed by the harness)
+        tag = "slow_reader"
+        mon = os.path.join(work, "slow.monitor")
+        rc, out = sh([HBIN, "slow-probe", "--monitor", mon], timeout=600)
+        if rc != 0:
+            report["errors"].append("harness failed on suite %s: %s" % (tag, out[-500:]))
+        else:
+            lines = open(mon).read().splitlines()
+            report["cases"] += len(lines)
+            report["distribution"]["slow_reader_scenarios"] = len(lines)
+            for line in lines:
+                p = line.split(" ")
+                if len(p) >= 3 and p[2] != "ok":
+                    monitor.append({"kind": "SLOW", "case": p[1], "class": p[2], "suite": tag,
+                                    "trace": ["slow reader: set %s; then get, getk, get, noop pipelined and not read for 400 ms" % p[1], line]})
+            report["suites"].append(tag)
     if cfg.get("pol"):
         # the random eviction policy under controlled schedules: implementation vs Model/PolConc.v
         tag = "conc_pol"
